@@ -521,7 +521,7 @@ fn run_l2(callset: &CallSet, cfg: &Config, split: usize, perm: &[usize], contain
             blocks: vec![],
             eof_marker: true,
             level: 6,
-        bcf_minor: 0,
+        bcf_minor: 0, no_contig_lines: false,
         };
         gen::encode(&vcf, container, &layout).map(|x| x.0).unwrap_or(vcf)
     };
